@@ -623,6 +623,30 @@ def oracle_surrogates(ctx):
             ctx.count("oracle:surrogate_refused:%s" % label, refused)
 
 
+def oracle_hashers(ctx, pool):
+    """hasher variants: the equality pattern over the pool does not depend on which collision-free hasher is plugged in -
+    SHA-1, a hasher returning ints (joined through map(str, ...)), the default named explicitly - it is the pattern of
+    the default SHA-256 run (which corr_pattern / corr_alike tie to the model)"""
+    import hashlib
+    from deepdiff import DeepHash
+    variants = [("sha1", DeepHash.sha1hex), ("sha256_explicit", DeepHash.sha256hex),
+                ("int_valued", lambda s: int(hashlib.sha256(s.encode("utf-8") if isinstance(s, str) else s).hexdigest(), 16)),
+                ("md5_upper", lambda s: hashlib.md5(s.encode("utf-8") if isinstance(s, str) else s).hexdigest().upper())]
+    vs = [v for v in pool if not spells_digest(v)]
+    for o in MODES3:
+        ref = base.classes_of([impl_hash(v, o)[0] for v in vs])
+        for name, h in variants:
+            got = base.classes_of([impl_hash(v, o, h)[0] for v in vs])
+            n = len(vs)
+            ctx.evaluations += n * (n - 1) // 2
+            ctx.count("oracle:hasher_variant_pools")
+            if got != ref:
+                i = next(k for k in range(n) if got[k] != ref[k])
+                j = got[i] if got[i] != i else ref[i]
+                ctx.fail({"kind": "hasher_variant", "hasher": name, "opts": list(o), "value": base.expr_shared(vs[i]), "other": base.expr_shared(vs[j])},
+                         "with hasher %s the pair %r / %r is told apart differently than with the default hasher" % (name, vs[i], vs[j]))
+
+
 def replay_witnesses(ctx):
     from deepdiff import DeepHash
     for s, x in [("NONE", None), ("int:1", 1), ("bool:true", True), ("list:", []), ("float:1.5", 1.5), ("dict:{}", {})]:
@@ -669,6 +693,7 @@ def run(ctx):
     base.corr_pattern(ctx, [v for v in pool if not spells_digest(v)], MODES3, "c07_pattern")
     corr_spec(ctx, pool, "c07_spec")
     corr_alike(ctx, pool, "c07_alike")
+    oracle_hashers(ctx, pool)
     # direct oracle: all pairs, three modes, both hashers
     for o in MODES3:
         oracle_pool(ctx, pool, o, None, "sha256")
@@ -706,6 +731,10 @@ def replay(ctx, data):
         return
     if "value" not in case or "other" not in case:
         return run(ctx)
+    if case.get("kind") == "hasher_variant":
+        oracle_hashers(ctx, [from_repr(case["value"]), from_repr(case["other"])])
+        print("replay: hasher variants on the pair %s / %s" % (case["value"], case["other"]))
+        return
     o = tuple(case["opts"])
     MODE_NAME.setdefault(o, "opts")
     a, b = from_repr(case["value"]), from_repr(case["other"])
